@@ -154,6 +154,7 @@ def spec_to_code(ctx, sutils, boxplot, violinplot):
 def code_to_spec(ctx, sutils, boxplot, ncases):
     rng = np.random.default_rng(ctx.seed + 20)
     recs = []
+    npareto_big = 0
     for t in range(ncases):
         kind = ["lhs", "ppos", "stdnorm", "pareto", "box"][t % 5]
         if kind == "lhs":
@@ -189,8 +190,13 @@ def code_to_spec(ctx, sutils, boxplot, ncases):
         elif kind == "pareto":
             n = int(rng.integers(0, 40))
             d = int(rng.integers(1, 6))
-            pts = rng.integers(0, 4, size=(n, d)).astype(float)
-            pts[rng.random((n, d)) < rng.choice([0, 0.15])] = np.nan
+            big = npareto_big < 3 and t % 5 == 3 and t >= 20
+            if big:
+                # a few sets of 150 - 400 points with missing coordinates (dominance is not transitive then)
+                n, d = int(rng.choice([150, 260, 400])), int(rng.integers(2, 4))
+                npareto_big += 1
+            pts = rng.integers(0, 4 if not big else 12, size=(n, d)).astype(float)
+            pts[rng.random((n, d)) < (0.15 if big else rng.choice([0, 0.15]))] = np.nan
             ori = int(rng.choice([-1, 1]))
             out = sutils.pareto_front(pts, orientation=ori) if n else []
             recs.append({"kind": "pareto", "pts": [[NAN if np.isnan(v) else int(v) for v in p] for p in pts], "ori": ori,
@@ -212,8 +218,8 @@ def code_to_spec(ctx, sutils, boxplot, ncases):
         ctx.count(recs[-1], True)
     # violin summaries of columns of one to several hundred values (odd and even sizes)
     from hydrodiy.plot import violinplot
-    for n in ([5, 100, 101, 151, 250, 499, 501] if ctx.tier == "quick" else [4, 5, 99, 100, 101, 137, 151, 250, 333, 499, 500, 501, 777]):
-        col = rng.integers(-5, 20, size=n).astype(float)
+    for n in ([5, 100, 101, 151, 250, 499, 501, 803, 1200] if ctx.tier == "quick" else [4, 5, 99, 100, 101, 137, 151, 250, 333, 499, 500, 501, 777, 803, 1200, 2001]):
+        col = rng.integers(-5, 20, size=n).astype(float) if n <= 501 else rng.integers(-5000, 20000, size=n).astype(float)   # long columns: few ties
         col[rng.random(n) < 0.05] = np.nan
         col[rng.random(n) < 0.03] = np.inf
         np.random.seed(n)
